@@ -14,6 +14,7 @@ from __future__ import annotations
 import ast
 
 from ..astutil import AnalysisError, dotted, src, walk_local, walk_ordered, calls_in
+from .. import pattern as P
 from ..rules import optable as ot
 from ..rules import sibling as sib
 from ..rules import widths as wd
@@ -272,12 +273,12 @@ def rule_casts(run):
     w = vh.func("BinOp.write")
     found_concat = False
     for n in walk_local(w.node):
-        if isinstance(n, ast.If) and "Operator.CONCAT" in src(n.test):
+        if isinstance(n, ast.If) and "Operator.CONCAT" in P.T(n.test):
             found_concat = True
             sides = {}
             for a in walk_local(n):
                 if isinstance(a, ast.Assign) and len(a.targets) == 1 and isinstance(a.value, ast.Attribute) and a.value.attr == "bitvector":
-                    t = src(a.targets[0])
+                    t = P.T(a.targets[0])
                     v = src(a.value.value)
                     sides[t] = v
             for side in ("lhs", "rhs"):
@@ -290,12 +291,12 @@ def rule_casts(run):
     for mem in ("LSHIFT", "RSHIFT"):
         br = None
         for n in walk_local(w.node):
-            if isinstance(n, ast.If) and f"Operator.{mem}" in src(n.test):
+            if isinstance(n, ast.If) and f"Operator.{mem}" in P.T(n.test):
                 br = n
         if br is None:
             raise AnalysisError(f"anchor vanished: {mem} branch of BinOp.write")
         casts = [c for c in calls_in(br.body) if isinstance(c.func, ast.Attribute) and c.func.attr == "format_cast"]
-        ok = bool(casts) and src(casts[0].args[0]).startswith("Integer") and "_rhs" in src(casts[0].args[1]) and "_rhs" in src(casts[0].args[2])
+        ok = bool(casts) and src(casts[0].args[0]).startswith("Integer") and "_rhs" in P.T(casts[0].args[1]) and "_rhs" in P.T(casts[0].args[2])
         run.ob(ok, f"vhdl.BinOp.write[{mem}]", file=vh.rel, line=br.lineno, detail="shift-amount-cast",
                expected="shift = format_cast(Integer(), rhs.result, rhs.write())", found=src(casts[0])[:80] if casts else "no cast")
     run.end()
